@@ -72,7 +72,10 @@ def prog(t, qtype, axis):
                         tag = f"{path}/{qname}/axis{axis}/r{rank}/{dtype}"
                         if not run.expect_paths(res, f"C03/8bit[{tag}]", inst):
                             continue
-                        rp = lambda m, s, i=dict(inst): replay(m, s, i)
+                        rp = lambda m, s, i=dict(inst): replay(m, s, i, ("shape", "raise"))
+                        rp_sat = lambda m, s, i=dict(inst): replay(m, s, i, ("saturation",))
+                        rp_full = lambda m, s, i=dict(inst): replay(m, s, i, ("full-range",))
+                        rp_pos = lambda m, s, i=dict(inst): replay(m, s, i, ("sign",))
                         for pi, r in enumerate(res):
                             if r.outcome == "raise":
                                 run.add(f"C03/no-exception[{tag}]/path{pi}:{r.value.tname}", r.hyps, z3.BoolVal(False), "property", inst, replay=rp)
@@ -107,12 +110,12 @@ def prog(t, qtype, axis):
                             hy = r.hyps + inb + facts
                             qmax = QMAX[qname]
                             # (c) non-saturation: |x| <= qmax * scale   (division-free form of |x/scale| <= qmax)
-                            run.add(f"C03/non-saturating[{tag}]/path{pi}", hy, absr(x) <= qmax * s, "property", inst, replay=rp)
+                            run.add(f"C03/non-saturating[{tag}]/path{pi}", hy, absr(x) <= qmax * s, "property", inst, replay=rp_sat)
                             # (d) full range: scale <= absmax / qmax(qtype)
                             fr = "C03/float8-weights" if (path == "weights" and qname != "qint8") else "C03"
-                            run.add(f"{fr}/full-range[{tag}]/path{pi}", hy, s * qmax <= absmax, "property", inst, replay=rp)
+                            run.add(f"{fr}/full-range[{tag}]/path{pi}", hy, s * qmax <= absmax, "property", inst, replay=rp_full)
                             # absmax really is the largest magnitude of the slice (attained): from the axioms, stated for the record
-                            run.add(f"C03/scale-nonnegative[{tag}]/path{pi}", hy, s >= 0, "property", inst, replay=rp)
+                            run.add(f"C03/scale-nonnegative[{tag}]/path{pi}", hy, s >= 0, "property", inst, replay=rp_pos)
                             run.add_path_obligations([r], f"C03/exec[{tag}]", inst, kinds=("assert", "torch-pre", "callee-pre"))
 
 
@@ -271,7 +274,8 @@ def build(run):
 
 
 # ------------------------------------------------------------------------------------------------ native replay
-def replay(model, seed, inst):
+def replay(model, seed, inst, clauses=("shape", "raise", "saturation", "full-range", "sign")):
+    """Native oracle, one clause at a time (so that a failure is attributed to the clause whose obligation was refuted)."""
     import torch
     from optimum.quanto import absmax_scale, qtypes, quantize_weight
 
@@ -282,13 +286,20 @@ def replay(model, seed, inst):
     for trial in range(30):
         shape = [2, 3, 4, 2][:rank]
         x = (torch.randn(shape) * 10 ** torch.randint(-3, 3, (1,)).item()).to(dt)
-        if inst["path"] == "weights":
-            q = quantize_weight(x, qtypes[qname], axis)
-            scale, ax = q._scale, q.axis
-        else:
-            scale, ax = absmax_scale(x, qtypes[qname], axis), axis
-        if scale.dtype != dt:
+        try:
+            if inst["path"] == "weights":
+                q = quantize_weight(x, qtypes[qname], axis)
+                scale, ax = q._scale, q.axis
+            else:
+                scale, ax = absmax_scale(x, qtypes[qname], axis), axis
+        except Exception as e:
+            if "raise" in clauses:
+                return {"what": f"raises {type(e).__name__}: {str(e)[:120]}", "shape": shape}
+            return None
+        if "shape" in clauses and scale.dtype != dt:
             return {"what": "scale dtype differs from the source", "got": str(scale.dtype)}
+        if "sign" in clauses and (scale < 0).any():
+            return {"what": "negative scale", "scale": scale.flatten().tolist()[:4], "input": x.flatten().tolist()[:8]}
         x64, s64 = x.to(torch.float64), scale.to(torch.float64)
         if ax is None:
             am = x64.abs().max()
@@ -296,9 +307,10 @@ def replay(model, seed, inst):
             dims = [d for d in range(rank) if d != ax % rank]
             am = x64.abs().amax(dim=dims, keepdim=True)
         eps = torch.finfo(dt).eps
-        if (x64.abs() / s64 > info.max * (1 + 4 * eps)).any():
+        den = float(torch.finfo(dt).tiny) * eps     # spacing of the subnormal range: the absolute rounding error of a tiny scale
+        if "saturation" in clauses and (x64.abs() / (s64 + den) > info.max * (1 + 4 * eps)).any():
             return {"what": "an element saturates", "shape": shape}
-        if (s64 > am / info.max * (1 + 4 * eps)).any():
+        if "full-range" in clauses and (s64 > am / info.max * (1 + 4 * eps) + den).any():
             return {"what": "scale larger than absmax/qmax", "scale": s64.flatten()[0].item(), "absmax_over_qmax": (am / info.max).flatten()[0].item(),
                     "shape": shape, "qtype": qname}
     return None
